@@ -137,6 +137,8 @@ impl<O: PackRecipient + 'static + ?Sized> ContentPackCreator<O> {
                 .get(),
             2,
         ) - 1;
+        #[cfg(jubako_verif)]
+        let nb_threads = crate::verif::knob("creator_workers", nb_threads).max(1);
         let cluster_writer =
             ClusterWriterProxy::new(file, compression, nb_threads, Arc::clone(&progress));
         Ok(Self {
